@@ -1,4 +1,4 @@
 """All sidecar contracts."""
-from . import defaults_utils, pure_utils
+from . import ast_utils, defaults_utils, docstring_parsers, pure_utils
 
-ALL_CONTRACTS = pure_utils.CONTRACTS + defaults_utils.CONTRACTS
+ALL_CONTRACTS = pure_utils.CONTRACTS + defaults_utils.CONTRACTS + docstring_parsers.CONTRACTS + ast_utils.CONTRACTS
